@@ -26,6 +26,7 @@ import KskmProofs.C14
 set_option linter.unusedSimpArgs false
 set_option linter.unusedVariables false
 namespace Kskm.C07
+open Kskm.C07L
 
 /-! ## Vocabulary -/
 
